@@ -171,7 +171,9 @@ pub fn matrix(expression: Expression) -> Expression {
                 }
             }
 
-            if matrix {
+            // NOTE: A column is keyed by the char with its index, which cannot be made once the
+            // index reaches the surrogate range, such a group is left as it is.
+            if matrix && fields.len() <= 0xD800 {
                 #[cfg(feature = "verif")]
                 crate::verif::hit(crate::verif::Arm::OPT_MATRIX_BUILT);
                 let mut columns: Vec<(String, u32)> = fields.into_iter().collect();
